@@ -1,6 +1,7 @@
 import RisorModel.Util
 import RisorModel.C04.Model
 import RisorModel.C18.Model
+import RisorModel.C18.Tables
 /-! Line-protocol front end of the C18 model.
 
 `hist <history>` → `ok <impl outcomes> <impl registers> <impl trace> <spec outcomes> <spec trace> <violated guards>`
@@ -14,7 +15,8 @@ import RisorModel.C18.Model
   trace    := per piece the statements executed by that piece's run, `id` or `id~` (stale globals view)
 `histh <host names> <history>` → the same answer with the listed names (n.n.n or "-") defined as
   host-supplied variables before the first piece (`Repl.init`, `SpecSt.init`, `guardHost`)
-`imp …` (layer 6: import cache) and `slots …` (layer 7: slot-indexed globals): see the sections below.
+`imp …` (layer 6: import cache), `slots …` (layer 7: slot-indexed globals) and `tabs …` (layer 8: constants and root symbol
+  table under rollback): see the sections below.
 `frag <instruction text>` → `accept <max height>` | `reject <why>`: the real fragment a piece added to
   the main code is position-independent (all jumps stay inside it), starts on an empty frame-relative
   stack, never reads below it and ends with exactly one value — C04's verified checker. -/
@@ -362,6 +364,65 @@ def slotSpecLog : SSt → List SPiece → List String
     let s1 := execS p.stmts (a, vs)
     slotSnap vs s1 :: slotSpecLog s1 rest
 
+
+/-! ### layer 8: `tabs <history>`
+  history := piece ("|" piece)*   piece := top ("/" top)*   top := line (";" line)*   line := ["~"] stmt   ("~": compiled, not executed)
+  stmt := "D" n "=" expr (top-level `n := e`) | "B" n "=" expr (block variable) | "S" n "=" expr (`n = e` through the root table) |
+          "T" j "=" expr (`n = e`, block variable j) | "x" expr | "!" (rejected for another reason)
+  expr := prefix tokens, "," separated: L<int> R<name> K<block variable> +
+  answer: `ok <impl> <spec> <unguarded contrast> <whole>`; impl/spec/contrast per piece ("|"): `a`/`r` ":" root symbols ":" constants ":"
+  Globals array (one entry per symbol, "n" = never stored) ":" values of the piece's expression statements (lists "." separated, "-" = empty);
+  whole = the accepted pieces concatenated, compiled and run at once: `a`/`r` ":" symbols ":" constants ":" array ":" all values -/
+
+def parseKTok : Nat → List String → Option (KExpr × List String)
+  | 0, _ => none
+  | fuel + 1, t :: rest =>
+    if t == "+" then do
+      let (a, r1) ← parseKTok fuel rest
+      let (b, r2) ← parseKTok fuel r1
+      pure (.add a b, r2)
+    else if t.startsWith "L" then (parseIntTok (tl1 t)).map fun v => (.lit v, rest)
+    else if t.startsWith "R" then (tl1 t).toNat?.map fun n => (.root n, rest)
+    else if t.startsWith "K" then (tl1 t).toNat?.map fun j => (.blk j, rest)
+    else none
+  | _, [] => none
+
+def parseK (t : String) : Option KExpr :=
+  let toks := t.splitOn ","
+  match parseKTok (toks.length + 1) toks with
+  | some (e, []) => some e
+  | _ => none
+
+def parseKStmt (t : String) : Option KStmt :=
+  if t == "!" then some .bad
+  else if t.startsWith "x" then (parseK (tl1 t)).map .expr
+  else match (tl1 t).splitOn "=" with
+    | [a, b] => do
+      let n ← a.toNat?
+      let e ← parseK b
+      if t.startsWith "D" then pure (.declRoot n e)
+      else if t.startsWith "B" then pure (.declBlk n e)
+      else if t.startsWith "S" then pure (.setRoot n e)
+      else if t.startsWith "T" then pure (.setBlk n e)
+      else none
+    | _ => none
+
+def parseKLine (t : String) : Option KLine :=
+  if t.startsWith "~" then (parseKStmt (tl1 t)).map fun s => ⟨s, false⟩ else (parseKStmt t).map fun s => ⟨s, true⟩
+
+def parseKPiece (t : String) : Option KPiece := (t.splitOn "/").mapM fun top => (top.splitOn ";").mapM parseKLine
+
+def tabSnap (ok : Bool) (T : Tab) (r : KRun) (nvals : Nat) : String :=
+  ":".intercalate [(if ok then "a" else "r"), dots (T.syms.map toString), showInts T.consts,
+    dots ((List.range T.syms.length).map fun i => match r.1 i with | some x => toString x | none => "n"),
+    showInts (r.2.drop nvals)]
+
+def tabLog (feed : KSess → KPiece → KSess) : KSess → List KPiece → List String
+  | _, [] => []
+  | s, p :: rest =>
+    let s1 := feed s p
+    tabSnap (s1.acc.getLastD false) s1.tab s1.run s.run.2.length :: tabLog feed s1 rest
+
 def handle : List String → String
   | ["hist", h] =>
     match parseHist h with
@@ -408,6 +469,13 @@ def handle : List String → String
         bar (slotLog reloadByName ns (a, []) ps), (let t := ns ++ allDecls ps; if t.isEmpty then "-" else dots (t.map toString)),
         b01 (scopedFrom ns.length ps)]
     | _, _, _ => "error\tbad-slot-session"
+  | ["tabs", h] =>
+    match (h.splitOn "|").mapM parseKPiece with
+    | some ps =>
+      let w := tabWhole {} (fun _ => none, []) ps
+      "\t".intercalate ["ok", bar (tabLog (tabFeed truncateDeleteGuarded) {} ps), bar (tabLog tabSpecFeed {} ps),
+        bar (tabLog (tabFeed false) {} ps), tabSnap w.1.ok w.1.tab w.2 0]
+    | none => "error\tbad-table-session"
   | ["frag", text] =>
     match C04.decode true text with
     | .error e => "error\t" ++ e
